@@ -164,7 +164,9 @@ type implRes struct {
 	Text  string
 }
 
-func (r implRes) returned() bool { return r.Class == "ok" || r.Class == "err" || r.Class == "integrity" }
+func (r implRes) returned() bool {
+	return r.Class == "ok" || r.Class == "err" || r.Class == "integrity"
+}
 
 func (r implRes) errClass() int {
 	switch r.Class {
@@ -640,7 +642,7 @@ func runC01(args []string) int {
 	reps := map[string][256]byte{}
 	var queries []mq
 	classes := map[string]int{}
-	var accepted []accDef   // listed fields: all; unlisted fields / unknown messages: a reservoir sample
+	var accepted []accDef // listed fields: all; unlisted fields / unknown messages: a reservoir sample
 	var unlistedRes []accDef
 	unlistedBudget := sizes(o.tier, o.boost, 3000, 60000)
 	nUnlisted := 0
